@@ -36,6 +36,9 @@ TWINS = {"brain": "briean", "martha": "marhata", "ca": "abc", "badc": "acbd", "j
 CITY = ["london", "leeds", "york", "bath", "hull"]
 DOB = ["1990-01-01", "1990-01-02", "1985-05-05", "1971-12-30", "2001-07-07", "1990-02-01", "1994-06-30", "1990-13-01"]
 AMT = [10.0, 10.5, 20.0, 100.0, 95.0, 12.25, 0.0, -5.0]
+# zero-padded / non-numeric codes kept in a TEXT column: a cast_to_string() that loses TEXT affinity on one backend (SQLite
+# CAST(x AS <name with NUMERIC affinity>)) turns '00123' into 123 and 'AB12' into 0 and shows up as a gamma difference
+CODE = ["00123", "123", "0123", "AB12", "ab12", "007", "7", "1e3", "1000", "12.0", "12", "0x10"]
 POSTCODE = ["AB1 2CD", "AB1 2CE", "AB1 3CD", "AB12 9ZZ", "AC1 2CD", "B1 1AA", "zz"]
 EMAIL = ["john@a.com", "john@b.com", "jon@a.com", "mary@a.com", "nodomain"]
 TOKENS = ["x1", "x2", "x3", "y1", "y2", "z9"]
@@ -54,7 +57,7 @@ def gen_pipeline(rng, idx, backends):
     for _ in range(rng.randint(12, 22)):
         c = rng.choice(COORD)
         base.append({"first_name": rng.choice(FN), "surname": rng.choice(SN), "city": rng.choice(CITY), "dob": rng.choice(DOB),
-                     "amount": rng.choice(AMT), "lat": c[0], "lng": c[1], "postcode": rng.choice(POSTCODE), "email": rng.choice(EMAIL),
+                     "amount": rng.choice(AMT), "lat": c[0], "lng": c[1], "code": rng.choice(CODE), "postcode": rng.choice(POSTCODE), "email": rng.choice(EMAIL),
                      "arr": sorted(rng.sample(TOKENS, rng.randint(1, 3)))})
     for t in range(ntab):
         rows = []
@@ -63,7 +66,7 @@ def gen_pipeline(rng, idx, backends):
             for col in ("first_name", "surname"):
                 if r[col] in TWINS and rng.random() < 0.4:
                     r[col] = TWINS[r[col]]
-            for col, pool in (("first_name", FN), ("surname", SN), ("city", CITY), ("dob", DOB), ("amount", AMT)):
+            for col, pool in (("first_name", FN), ("surname", SN), ("city", CITY), ("dob", DOB), ("amount", AMT), ("code", CODE), ("code", CODE)):
                 x = rng.random()
                 if x < 0.15:
                     r[col] = rng.choice(pool)
@@ -77,10 +80,10 @@ def gen_pipeline(rng, idx, backends):
         tables.append(rows)
     specs = []
     pool = ["jw_first", "lev_sur", "exact_city_tf", "amount", "dl_sur", "jaro_first", "dist_fn", "name_cmp", "exact_dob", "km", "lev_dob", "city_custom",
-            "custom_sql"]
+            "custom_sql", "code_cast", "sur_transformed"]
     rng.shuffle(pool)
     col_of = {"jw_first": "first_name", "jaro_first": "first_name", "name_cmp": "first_name", "lev_sur": "surname", "dl_sur": "surname",
-              "dist_fn": "surname", "exact_dob": "dob", "lev_dob": "dob", "exact_city_tf": "city", "city_custom": "city"}
+              "dist_fn": "surname", "exact_dob": "dob", "lev_dob": "dob", "exact_city_tf": "city", "city_custom": "city", "code_cast": "code", "sur_transformed": "surname"}
     chosen, used = [], set()
     for c in pool:                      # one comparison per input column (output column names must be unique)
         if col_of.get(c, c) in used:
@@ -94,6 +97,8 @@ def gen_pipeline(rng, idx, backends):
         chosen.remove("km")
     thr_jw = rng.choice([[0.9, 0.7], [0.92, 0.88], 0.8])
     thr_lev = rng.choice([[1, 2], 2, [1, 3]])
+    if "code_cast" not in chosen and rng.random() < 0.35:
+        chosen = chosen[:3] + ["code_cast"]
     if "custom_sql" in chosen:       # its levels read first_name, surname and amount
         chosen = ["custom_sql"] + [c for c in chosen if col_of.get(c, c) not in ("first_name", "surname", "amount", "custom_sql")]
         if len(chosen) < 2:
@@ -155,6 +160,12 @@ def build_settings(spec):
                 cll.PercentageDifferenceLevel("amount", 0.25), cll.ElseLevel()]))
         elif c == "km":
             comps.append(cl.DistanceInKMAtThresholds("lat", "lng", [1, 50]))
+        elif c == "code_cast":           # comparison creators built from transformed ColumnExpressions
+            from splink.internals.column_expression import ColumnExpression
+            comps.append(cl.LevenshteinAtThresholds(ColumnExpression("code").cast_to_string(), 1))
+        elif c == "sur_transformed":
+            from splink.internals.column_expression import ColumnExpression
+            comps.append(cl.JaroWinklerAtThresholds(ColumnExpression("surname").lower().substr(1, 5).nullif("none"), [0.9, 0.7]))
         elif c == "custom_sql":
             # levels written in DuckDB SQL with dialect-sensitive constructs (NULL-skipping concat, ^ as power, // integer division,
             # float /), declared through base_dialect_str (creator and dict form); every backend must give DuckDB's meaning
@@ -211,7 +222,7 @@ def shared_settings(case):
 def frames(case):
     out = []
     for rows in case["tables"]:
-        cols = ["unique_id", "first_name", "surname", "city", "dob", "amount", "lat", "lng"]
+        cols = ["unique_id", "first_name", "surname", "city", "dob", "amount", "lat", "lng", "code"]
         used = set(case["spec"]["comparisons"])
         if "postcode" in used:
             cols.append("postcode")
@@ -220,7 +231,7 @@ def frames(case):
         if "arr_intersect" in used:
             cols.append("arr")
         d = pd.DataFrame(rows, columns=cols)
-        for c in ("first_name", "surname", "city", "dob", "postcode", "email"):
+        for c in ("first_name", "surname", "city", "dob", "postcode", "email", "code"):
             if c in d:
                 d[c] = d[c].astype("string")
         d["amount"] = d["amount"].astype("float64")
